@@ -18,16 +18,17 @@ import (
 
 type bigFileCase struct {
 	Format   string `json:"format"`
-	Variant  int    `json:"variant"`  // BED: N; others: 0
-	Delivery string `json:"delivery"` // whole | bytes-1 | chunks-7 | chunks-4096 | chunks-4097
+	Variant  int    `json:"variant"`                      // BED: N; others: 0
+	Size     int    `json:"file_size_at_least,omitempty"` // 0: 14 000 bytes
+	Delivery string `json:"delivery"`                     // whole | bytes-1 | chunks-7 | chunks-4096 | chunks-4097
 }
 
-func bigFileRecords(format string, variant int) (data []byte, want []obsItem, fail string) {
+func bigFileRecords(format string, variant, size int) (data []byte, want []obsItem, fail string) {
 	var buf bytes.Buffer
 	switch format {
 	case "fasta":
 		var recs []faRec
-		for i := 0; buf.Len() < 14000; i++ {
+		for i := 0; buf.Len() < size; i++ {
 			rc := faRec{core.S(fmt.Sprintf("record%d description %d", i, i*i)), core.S(longSeq(37 + 53*i%400))}
 			d, f := writeFastaChecked([]faRec{rc})
 			if f != "" {
@@ -39,7 +40,7 @@ func bigFileRecords(format string, variant int) (data []byte, want []obsItem, fa
 		return buf.Bytes(), wantFasta(recs), ""
 	case "fastq":
 		var recs []fqRec
-		for i := 0; buf.Len() < 14000; i++ {
+		for i := 0; buf.Len() < size; i++ {
 			l := 20 + 37*i%150
 			rc := fqRec{core.S(fmt.Sprintf("read%d/%d", i, l)), core.S(longSeq(l)), core.S(strings.Repeat("IJ+@!~", 30)[i%5 : i%5+l])}
 			d, f := writeFastqChecked([]fqRec{rc})
@@ -51,7 +52,7 @@ func bigFileRecords(format string, variant int) (data []byte, want []obsItem, fa
 		}
 		return buf.Bytes(), wantFastq(recs), ""
 	case "sam":
-		for i := 0; buf.Len() < 14000; i++ {
+		for i := 0; buf.Len() < size; i++ {
 			rc := defaultSamRec()
 			rc.Qname, rc.Flag, rc.Rname, rc.Pos, rc.Mapq = core.S(fmt.Sprintf("read%d", i)), i%4096, core.S(fmt.Sprintf("chr%d", i%23)), i*13, i%61
 			rc.Cigar, rc.Rnext, rc.Pnext, rc.Tlen = core.S(fmt.Sprintf("%dM", 1+i%150)), core.S([]string{"=", "*", "chrX"}[i%3]), i*13+150, i%7-3
@@ -68,7 +69,7 @@ func bigFileRecords(format string, variant int) (data []byte, want []obsItem, fa
 		return buf.Bytes(), want, ""
 	case "bed":
 		n := variant
-		for i := 0; buf.Len() < 14000; i++ {
+		for i := 0; buf.Len() < size; i++ {
 			rc := defaultBed(n)
 			rc.Chrom, rc.ChromStart, rc.ChromEnd = core.S(fmt.Sprintf("chr%d", i%23)), i*10, i*10+7
 			if n >= 4 {
@@ -106,7 +107,7 @@ func bigFileRecords(format string, variant int) (data []byte, want []obsItem, fa
 		}
 		return buf.Bytes(), want, ""
 	case "newick":
-		for i := 0; buf.Len() < 14000; i++ {
+		for i := 0; buf.Len() < size; i++ {
 			t := defaultNwTree([][]int{{2, 0, 0}, {1, 1, 0}, {3, 0, 1, 0, 0}, {0}}[i%4])
 			for j := range t.Names {
 				t.Names[j] = core.S([]string{fmt.Sprintf("leaf%d", i+j), fmt.Sprintf("sp %d", i), fmt.Sprintf("it's (%d)", j), "", fmt.Sprintf("a_b%d", i)}[(i+j)%5])
@@ -146,19 +147,25 @@ func (d *dataEOFReader) Read(p []byte) (int, error) {
 }
 
 func bigFiles(r *core.Run, format string, variants []int) {
-	r.Bound("big-files", "about 14 KB of generated records (every field different from record to record; BED: for every N) x deliveries {whole, 1 byte, 7 bytes, 4096 bytes, 4097 bytes per Read; whole and 5000 bytes per Read with io.EOF arriving together with the last bytes}")
+	r.Bound("big-files", "about 14 KB of generated records (every field different from record to record; BED: for every N) x deliveries {whole, 1 byte, 7 bytes, 4096 bytes, 4097 bytes per Read; whole and 5000 bytes per Read with io.EOF arriving together with the last bytes}; about 300 KB of such records (thousands of short records, several times 64 KiB in total, all kept by the consumer and rendered again after the iteration) x deliveries {whole, 4096 bytes, 5000 bytes with io.EOF}")
 	core.Clause(r, "big-files", core.Opts{Rule: "hundreds of records written, read back and compared with WHAT WAS WRITTEN (not with another decode), every retained record rendered a second time after the iteration: a record that still points into the reader's buffer changes when the buffer is refilled; non-trivial = all"},
 		func(emit func(bigFileCase) bool) {
 			for _, v := range variants {
 				for _, d := range []string{"whole", "bytes-1", "chunks-7", "chunks-4096", "chunks-4097", "whole+eof", "chunks-5000+eof"} {
-					if !emit(bigFileCase{format, v, d}) {
+					if !emit(bigFileCase{format, v, 0, d}) {
+						return
+					}
+				}
+				// many more records than any slab, pool or buffer of 64 KiB holds, all kept by the consumer
+				for _, d := range []string{"whole", "chunks-4096", "chunks-5000+eof"} {
+					if !emit(bigFileCase{format, v, 300000, d}) {
 						return
 					}
 				}
 			}
 		},
 		func(c bigFileCase) core.Outcome {
-			data, want, fail := bigFileRecords(c.Format, c.Variant)
+			data, want, fail := bigFileRecords(c.Format, c.Variant, max(c.Size, 14000))
 			if fail != "" {
 				return core.Failf("%s", fail)
 			}
